@@ -480,8 +480,9 @@ func TestForwardedRequestIsTheRewrittenRequest(t *testing.T) {
 				t.Fatalf("X-Forwarded-For %q lost the element of the client's second header line (203.0.113.9)\n%s", xff, s)
 			}
 		default:
-			parts := strings.Split(fwd, ",")
-			if !strings.Contains(parts[len(parts)-1], "for="+s.Peer) {
+			// (an IPv6 address comes in brackets and quoted, RFC 7239, section 6)
+			els := vkit.ForwardedElements(fwd)
+			if len(els) == 0 || strings.Trim(els[len(els)-1]["for"], "[]") != s.Peer {
 				t.Fatalf("Forwarded %q (X-Forwarded-For %q) is not extended by the peer %s\n%s", fwd, xff, s.Peer, s)
 			}
 
